@@ -5,6 +5,7 @@ exactly one of three branches, the text written is prefix + new name), the refer
 keeps flow analysis switched off for the WHOLE defining-name closure and restores it, and
 late matches are merged through a table keyed consistently by tree names."""
 import ast
+import re
 
 from ..core import AnchorError, call_name, norm, short, own_nodes, kwarg, FUNC_TYPES
 from ..cfg import cfg_of
@@ -272,7 +273,7 @@ def rule_g(repo, chk):
         ok = any(s.endswith('.get_signatures()') for s in srcs) and any(s.endswith('.get_param_names()') for s in srcs)
         chk.ob('C05.g', ok, l, 'the walk goes over value.get_signatures() and signature.get_param_names()', str(srcs))
         cmp_ = [x for x in ast.walk(l) if isinstance(x, ast.Compare) and 'string_name' in norm(x)]
-        ok = len(cmp_) == 1 and isinstance(cmp_[0].ops[0], (ast.Eq, ast.NotEq)) and {norm(cmp_[0].left), norm(cmp_[0].comparators[0])} == {'param_name.string_name', 'name.value'}
+        ok = len(cmp_) == 1 and isinstance(cmp_[0].ops[0], (ast.Eq, ast.NotEq)) and sorted(re.sub(r'^\w+\.string_name$', '<p>.string_name', t) for t in (norm(cmp_[0].left), norm(cmp_[0].comparators[0]))) == ['<p>.string_name', 'name.value']
         chk.ob('C05.g', ok, l, 'a parameter is selected by equality of its string_name with the keyword\'s text', str([norm(c) for c in cmp_]))
 
 
